@@ -422,6 +422,8 @@ def rule_r3(ctx, an: Anchors, gs: GenBranch) -> None:
     raises = [cfg.nodes[i] for i in region if cfg.nodes[i].kind == "stmt" and isinstance(cfg.nodes[i].ast, ast.Raise)]
     ok_raise = any("AsyncResourceError" in ast.unparse(exc_expr(r.ast)) for r in raises if r.ast.exc is not None)
     rep.check("C04.R3", ok_raise, f, t.ast, "coroutine branch raises AsyncResourceError", "coroutine branch does not raise AsyncResourceError")
+    normal_region = cfg.reach(true_succ, avoid=[t.id], edge_ok=lambda s_, d_, lab: lab not in ("e", "h"))
+    rep.check("C04.R3", cfg.exit not in normal_region, f, t.ast, "the coroutine branch never returns normally: every sync lookup of an async factory raises AsyncResourceError", "the coroutine branch can return normally (e.g. None for an optional lookup): the synchronous API reports 'not there' for a resource the asynchronous API returns - the two lookup paths disagree")
     reaches_store = any(s in region for s in store_ids)
     rep.check("C04.R3", not reaches_store, f, t.ast, "coroutine branch never reaches the store", "the coroutine branch can still store the coroutine object")
     closes = any(
@@ -429,7 +431,12 @@ def rule_r3(ctx, an: Anchors, gs: GenBranch) -> None:
         for i in region
         for e in (iter_own(cfg.own_ast(cfg.nodes[i])) if cfg.own_ast(cfg.nodes[i]) is not None else [])
     )
-    rep.check("C04.R3", closes, f, t.ast, "the rejected coroutine is closed", "the rejected coroutine is never closed (leaks a never-awaited coroutine)")
+    # (closing the rejected coroutine only avoids a "never awaited" RuntimeWarning: not part of
+    # the statement)
+    if closes:
+        rep.hold("C04.R3", f, t.ast, "the rejected coroutine is closed", nontrivial=False)
+    else:
+        rep.note("C04.R3: the rejected coroutine object is not closed (RuntimeWarning only; not required by the statement)")
     # failure atomicity of both lookups (nothing may raise after the store)
     eff = c03.Effects(ctx)
     for g in (gs.f, an.ctx_method("get_resource")):
@@ -511,6 +518,14 @@ def rule_r6(ctx, an: Anchors, gs: GenBranch, ga: GenBranch) -> None:
     rep.floor("C04.R6", n, 2)
 
 
+def sync_async_agreement(ctx) -> None:
+    """R1 + R3 only (used by C02: all lookup paths agree on what is visible)."""
+    an = Anchors(ctx.a)
+    gs, ga = rule_r1(ctx, an)
+    if gs.ok and ga.ok:
+        rule_r3(ctx, an, gs)
+
+
 def run(ctx) -> None:
     an = Anchors(ctx.a)
     gs, ga = rule_r1(ctx, an)
@@ -524,3 +539,20 @@ def run(ctx) -> None:
     from . import c18
 
     c18.hit_test_rule(ctx, an, "C04.R5")
+    # one caller = one sequential series of lookups: @inject must not fan its lookups out over
+    # concurrent tasks (two parameters served by one async factory would race each other)
+    from .. import extern as _extern
+
+    inj = ctx.p.public("inject")
+    if isinstance(inj, FuncInfo):
+        fns = [inj] + [g for g in ctx.p.all_functions() if g.parent is inj or (g.parent is not None and g.parent.parent is inj)]
+        spawned = [(g, c) for g in fns for c, _cal in ctx.a.func_calls(g) if call_name(c) in _extern.SPAWN_METHODS or call_name(c) == "create_task_group"]
+        for g, c in spawned:
+            ctx.rep.violate("C04.R4", g, c, "@inject resolves its dependencies in concurrently running tasks: lookups of two parameters backed by the same factory race, the factory runs more than once and the function receives objects that are not the registered one")
+        if not spawned:
+            ctx.rep.hold("C04.R4", inj, None, f"the {len(fns)} functions of @inject spawn no tasks: injected lookups are strictly sequential", nontrivial=False)
+    # "generated in, stored in and owned by the REQUESTING context": lookups never walk to
+    # another context (C02.R3, incl. helpers the lookups call)
+    from .common import include_rules
+
+    include_rules(ctx, "c02", "C04.R6", only=("C02.R3",))
